@@ -539,15 +539,32 @@ def _sg(ck: Checker, prog: Program):
         elif isinstance(r, (sp.Gt, sp.Ge)) and equal(r.rhs, nfr):
             upper = (r.lhs - idx) if isinstance(r, sp.Gt) else (r.lhs - idx + 1)
     # offsets read: rel_idx + 1 for rel_idx in enumerate(coefficients[:-1][::-1]) -> 1 .. ncoeff-1
-    it_ok = unparse(inner[0].iter) == "enumerate(coefficients[:-1][::-1])"
+    # by value (temporaries, hoisted invariants and renamed locals are followed to what they hold)
+    from ..resolve import Resolver as _Resolver, canon as _canon
+    RH = _Resolver(prog, h, inline=False, keep={k})
+    try:
+        it_ok = _canon(RH.value(inner[0].iter, inner[0])) == _canon(RH.expect("enumerate(coefficients[:-1][::-1])"))
+    except AnalysisError:
+        it_ok = False
     rel = unparse(inner[0].target.elts[0]) if isinstance(inner[0].target, ast.Tuple) else "?"
     cf = unparse(inner[0].target.elts[1]) if isinstance(inner[0].target, ast.Tuple) else "?"
     upd = [st for st in inner[0].body if isinstance(st, ast.AugAssign)]
-    pair_ok = len(upd) == 1 and unparse(upd[0].target) == "summation" and unparse(upd[0].value) in (
-        f"{cf} * (spectrum[:, {k} + ({rel} + 1)] + spectrum[:, {k} - ({rel} + 1)])",
-        f"{cf} * (spectrum[:, {k} - ({rel} + 1)] + spectrum[:, {k} + ({rel} + 1)])")
-    centre = [st for st in lp.body if isinstance(st, ast.Assign) and unparse(st.targets[0]) == "summation"]
-    centre_ok = len(centre) == 1 and unparse(centre[0].value) == f"coefficients[-1] * spectrum[:, {k}]"
+    acc_name = unparse(upd[0].target) if len(upd) == 1 else None
+    pair_ok = False
+    if acc_name is not None and isinstance(upd[0].op, ast.Add):
+        RP = _Resolver(prog, h, inline=False, keep={k, rel, cf})
+        try:
+            got_pair = _canon(RP.value(upd[0].value, upd[0]))
+            pair_ok = equal(got_pair, _canon(RP.expect(f"{cf} * (spectrum[:, {k} + ({rel} + 1)] + spectrum[:, {k} - ({rel} + 1)])")))
+        except AnalysisError:
+            pair_ok = False
+    centre = [st for st in lp.body if isinstance(st, ast.Assign) and acc_name is not None and unparse(st.targets[0]) == acc_name]
+    centre_ok = False
+    if len(centre) == 1:
+        try:
+            centre_ok = equal(_canon(RH.value(centre[0].value, centre[0])), _canon(RH.expect(f"coefficients[-1] * spectrum[:, {k}]")))
+        except AnalysisError:
+            centre_ok = False
     if it_ok and pair_ok and centre_ok:
         ck.ok("C02.R5", hq, "c_0*s[k] + sum_i c_i*(s[k+i] + s[k-i])", detail="coefficient |i| pairs the two samples at distance i")
     else:
